@@ -140,6 +140,8 @@ func run(c *C) {
 		runUtf8(c)
 	case "C30":
 		runEqual(c)
+	case "C16":
+		runSizeCache(c)
 	case "C08":
 		runPaths(c)
 	case "C17":
